@@ -38,6 +38,7 @@ const (
 )
 
 type Task struct {
+	goid   int64
 	ID     int
 	Name   string
 	Ctx    *Ctx
@@ -146,7 +147,7 @@ func NewWorld(tape *Tape, base time.Time) *World {
 	w := &World{Tape: tape, Base: base, back: make(chan struct{}), GoSeen: map[string]int{}, Stats: map[string]int{},
 		MaxSwitches: 50_000_000, traceCap: 400}
 	w.rnd = &splitReader{s: 0xfeedface}
-	w.defaultCtx = &Ctx{ID: -1, Name: "world", Zone: time.UTC}
+	w.defaultCtx = &Ctx{ID: -1, Name: "world", Zone: time.UTC, MapSeed: 0x5eed} // never 0: with seed 0 the runtime falls back to its own random map seeds
 	return w
 }
 
@@ -254,6 +255,7 @@ func (w *World) SpawnAfter(d time.Duration, ctx *Ctx, name string, f func()) *Ta
 	t := &Task{ID: len(w.tasks), Name: name, Ctx: ctx, wake: make(chan struct{}), wakeAt: w.now + d}
 	w.tasks = append(w.tasks, t)
 	go func() {
+		t.goid = runtime.SimGoid()
 		<-t.wake
 		defer func() {
 			if r := recover(); r != nil {
@@ -284,7 +286,10 @@ func (w *World) park() {
 
 // Sleep suspends the running task for d of simulated time.
 func (w *World) Sleep(d time.Duration) {
-	t := w.cur
+	t := w.task()
+	if t == nil && w.cur != nil {
+		return // a goroutine the simulator does not schedule: its sleeps do not move the simulated clock
+	}
 	if t == nil {
 		// outside any task (harness set-up): just advance the clock
 		if d > 0 {
@@ -301,7 +306,7 @@ func (w *World) Sleep(d time.Duration) {
 
 // YieldAt is a voluntary scheduling point.
 func (w *World) YieldAt(site string) {
-	t := w.cur
+	t := w.task()
 	if t == nil {
 		return
 	}
@@ -312,7 +317,7 @@ func (w *World) YieldAt(site string) {
 // WaitFor parks the running task until cond() holds (evaluated by the scheduler
 // while nobody runs) or the simulated timeout passes. Returns cond().
 func (w *World) WaitFor(cond func() bool, timeout time.Duration) bool {
-	t := w.cur
+	t := w.task()
 	if t == nil {
 		return cond()
 	}
@@ -535,16 +540,51 @@ func shortFile(s string) string {
 // LockSites makes parked lockers record their call site (slower; used on replay).
 func (w *World) LockSites(on bool) { w.lockSites = on }
 
+// ForeignOps counts seam calls made by goroutines that are not the running task (finalizers, goroutines of
+// third-party code): they bypass the world instead of being mistaken for the task that holds the baton.
+var ForeignOps uint64
+
+// task returns the running task if the caller IS its goroutine, else nil.
+func (w *World) task() *Task {
+	t := w.cur
+	if t != nil && t.goid != 0 && t.goid != runtime.SimGoid() {
+		atomic.AddUint64(&ForeignOps, 1)
+		return nil
+	}
+	return t
+}
+
+var lockTrace = os.Getenv("VERIF_LOCKTRACE") != ""
+
 func (w *World) preempt() bool {
 	if !w.Preempt {
 		return false
 	}
 	w.lockOps++
+	if lockTrace {
+		// debugging aid (VERIF_LOCKTRACE=1): every lock operation with its call site goes into the history
+		var pcs [10]uintptr
+		n := runtime.Callers(3, pcs[:])
+		fr := runtime.CallersFrames(pcs[:n])
+		var sb strings.Builder
+		for i := 0; i < 6; i++ {
+			f, more := fr.Next()
+			fmt.Fprintf(&sb, "%s:%d ", shortFile(f.File), f.Line)
+			if !more {
+				break
+			}
+		}
+		name := "?"
+		if w.cur != nil {
+			name = w.cur.Name
+		}
+		w.Logf("lockop %d task=%s %s", w.lockOps, name, sb.String())
+	}
 	return w.PreemptEvery <= 1 || w.lockOps%uint64(w.PreemptEvery) == 0
 }
 
 func (w *World) Lock(m *verifseam.Mutex) {
-	t := w.cur
+	t := w.task()
 	if t == nil {
 		m.Owner = -1
 		return
@@ -576,7 +616,7 @@ func (w *World) TryLock(m *verifseam.Mutex) bool {
 func (w *World) Unlock(m *verifseam.Mutex) { m.Owner = 0 }
 
 func (w *World) RLock(m *verifseam.RWMutex) {
-	t := w.cur
+	t := w.task()
 	if t == nil || t.killed {
 		m.Readers++
 		return
@@ -597,7 +637,7 @@ func (w *World) RUnlock(m *verifseam.RWMutex) {
 }
 
 func (w *World) WLock(m *verifseam.RWMutex) {
-	t := w.cur
+	t := w.task()
 	if t == nil {
 		m.Writer = -1
 		return
@@ -619,7 +659,7 @@ func (w *World) WUnlock(m *verifseam.RWMutex) { m.Writer = 0 }
 func (w *World) WgAdd(g *verifseam.WaitGroup, n int) { g.N += n }
 
 func (w *World) WgWait(g *verifseam.WaitGroup) {
-	t := w.cur
+	t := w.task()
 	if t == nil || t.killed {
 		return
 	}
